@@ -224,6 +224,10 @@ func (g *grpcClient) WriteRequestHeader(_ StreamType, header http.Header) {
 	// compress the whole stream. By default, http.Client will ask the server
 	// to gzip the stream if we don't set Accept-Encoding.
 	header["Accept-Encoding"] = []string{compressionIdentity}
+	// The header map may belong to a Request that went out through another
+	// client before: what it says about compression must be this client's.
+	delete(header, grpcHeaderCompression)
+	delete(header, grpcHeaderAcceptCompression)
 	if g.CompressionName != "" && g.CompressionName != compressionIdentity {
 		header[grpcHeaderCompression] = []string{g.CompressionName}
 	}
